@@ -74,7 +74,7 @@ def derive_seed(base, *parts):
 def run_case(facet, case, tier="quick"):
     """Run one case; never raises for library misbehaviour."""
     from . import lib
-    from .oracle import NonFinite, OracleError
+    from .oracle import NonFinite, OracleError, ZeroControlWeight
     out = Outcome()
     limit = facet.case_timeout or CASE_TIMEOUT[tier]
 
@@ -89,6 +89,8 @@ def run_case(facet, case, tier="quick"):
     except CaseTimeout:
         out.notes.append("case-timeout")
         out.excluded = "case-timeout"
+    except ZeroControlWeight:
+        out.excluded = "reference: a refined control weight vanishes (no finite (P, w) representation)"
     except NonFinite as exc:
         out.fail("non-finite-result", "nan-or-inf", f"the library returned a non-finite number ({exc})")
     except (OracleError, lib.HarnessError):
